@@ -359,9 +359,9 @@ def h_struct(cfg):
         sizes = []
         fields = {}
         for k, p in enumerate(pat):
+            # a dynamic child begins with its size word (>= 8 bytes); its reported size need NOT be a slot
+            # multiple (a string created from a capacity reports capacity + 8): the struct rounds
             z = e.sym(f"z{k}", 1 if p == "S" else 8, BIG // 16)
-            if p == "D":
-                e.assume(z.e % 8 == 0)  # a dynamic child reports a slot multiple (its own obligation)
             sizes.append(z)
             fields[f"f{k}"] = FakeStatic(f"f{k}", z) if p == "S" else FakeDyn(f"f{k}", z)
         det = lambda m: {"pattern": "".join(pat), "sizes": [m.eval(z.e, model_completion=True).as_long() for z in sizes]}
@@ -749,23 +749,34 @@ def replay(kind, cfg, detail):
     elif kind == "struct":
         pid, pat = cfg
         sizes = [int(x) for x in (detail or {}).get("sizes", [8] * len(pat))]
-        fields = {}
+        fields, val, exp = {}, {}, {}
         for k, p in enumerate(pat):
             if p == "S":
                 n = max(1, min(sizes[k], 64))
                 fields[f"f{k}"] = xo.Int8[n]
+                val[f"f{k}"] = [1] * n
+                exp[f"f{k}"] = [1] * n
             else:
-                fields[f"f{k}"] = xo.Int8[:]
+                # a dynamic child of exactly the reported size: a string created from a capacity (size = capacity + 8)
+                z = max(9, min(sizes[k], 200))
+                fields[f"f{k}"] = xo.String
+                val[f"f{k}"] = z - 8
+                exp[f"f{k}"] = ""
         S = type("RS", (xo.Struct,), fields)
-        val = {f"f{k}": ([1] * max(1, min(sizes[k], 64)) if p == "S" else [2] * max(0, min(sizes[k] - 16, 64))) for k, p in enumerate(pat)}
         o = S(val)
-        t = ("struct", "RS", tuple((f"f{k}", ("array", ("scalar", "Int8"), (max(1, min(sizes[k], 64)) if p == "S" else None,), None)) for k, p in enumerate(pat)))
+        t = ("struct", "RS", tuple((f"f{k}", ("array", ("scalar", "Int8"), (len(val[f"f{k}"]),), None) if p == "S" else ("string",)) for k, p in enumerate(pat)))
         try:
-            got = Decoder(bytes(o._buffer.to_bytearray(0, o._buffer.capacity))).decode(t, o._offset)
-            if any(list(got[k]) != list(val[k]) for k in val):
+            dec = Decoder(bytes(o._buffer.to_bytearray(0, o._buffer.capacity)))
+            got = dec.decode(t, o._offset)
+            if any((list(got[k]) if isinstance(got[k], list) else got[k]) != exp[k] for k in exp):
                 bad.append(f"layout decoder reads {got}")
+            for path, off, parent in dec.parts:
+                if (off - parent) % 8:
+                    bad.append(f"part {path} at offset {off - parent}: not on a slot boundary")
+            if o._size % 8:
+                bad.append(f"struct size {o._size} is not a multiple of 8")
         except Exception as ex:
-            bad.append(f"layout decoder failed: {ex}")
+            bad.append(f"layout decoder failed: {type(ex).__name__}: {ex}")
     for m in bad:
         print("VIOLATED:", m)
     if not bad:
